@@ -172,7 +172,7 @@ def run(report, db, tier):
 class _Sub(object):
     """Adapter: re-labels the findings of C10's arm analysis that concern
     the cipher under C18's rule id and drops the rest."""
-    KEEP = ('enc:secret-count', 'enc:cipher-secret', 'enc:cipher-contexts',
+    KEEP = ('enc:secret-count', 'enc:secret-not-fresh', 'enc:cipher-secret', 'enc:cipher-contexts',
             'enc:wrapper-args', 'enc:wrapper-class', 'enc:not-wrapped',
             'enc:rsa-args', 'enc:response-slots', 'enc:secret-binding')
 
